@@ -110,3 +110,65 @@ def compare(chk, binp, progs, wd, tag, devs_known, what):
     for p in progs[:2]:
         chk.sample({"source": mjgen.print_js(p).split("\n", 2)[2][:600], "specified": want[p["id"]]["log"]})
     return states, len(bad), len(explained)
+
+
+# ---------------------------------------------------------------------------------------------------------------
+# Bind.tla (bindings / closures / scopes) as oracle
+
+BIND_CFG = """SPECIFICATION Spec
+CONSTANTS Deviations = {%s}
+CHECK_DEADLOCK FALSE
+"""
+
+
+def bind_eval(progs, wd, tag, shards=None, timeout=1800, devs=()):
+    """{id: {log, ty, v}} as specified by Bind.tla."""
+    shards = shards or max(1, min(NCPU, len(progs) // 100 + 1))
+    os.makedirs(wd, exist_ok=True)
+    parts = [progs[i::shards] for i in range(shards)]
+
+    def one(i):
+        pf = os.path.join(wd, "%s-bprogs-%d.ndjson" % (tag, i))
+        with open(pf, "w") as f:
+            for p in parts[i]:
+                f.write(json.dumps(p) + "\n")
+        return run_tlc("Bind", BIND_CFG % ", ".join('"%s"' % d for d in devs), os.path.join(wd, "%s-btlc-%d" % (tag, i)), workers=1, timeout=timeout, heap="2g", xss="512m",
+                       env_extra={"PROGS": pf})
+
+    with ThreadPoolExecutor(max_workers=shards) as ex:
+        results = list(ex.map(one, [i for i in range(shards) if parts[i]]))
+    out = {}
+    for r in results:
+        if r.violation or r.rc not in (0,):
+            raise Inconclusive("TLC failed evaluating Bind (%s): %s\n%s" % (tag, r.violation, r.out[-2500:]))
+        for v in r.lines:
+            out[v["id"]] = v
+    if len(out) != len(progs):
+        raise Inconclusive("Bind oracle evaluated %d of %d programs" % (len(out), len(progs)))
+    return out
+
+
+def bind_run(binp, progs, wd, tag, variant, timeout=1200):
+    import bindgen
+    sp = os.path.join(wd, "%s-bsrcs.json" % tag)
+    items = []
+    for p in progs:
+        pre, src, mode = bindgen.print_js(p, variant)
+        items.append({"id": p["id"], "gen": mode, "pre": pre, "src": src})
+    with open(sp, "w") as f:
+        json.dump(items, f)
+    op = os.path.join(wd, "%s-bgoja.ndjson" % tag)
+    r = subprocess.run([binp, "-in", sp, "-out", op, "-threads", str(NCPU)], stdout=subprocess.PIPE, stderr=subprocess.PIPE, text=True, timeout=timeout)
+    if r.returncode != 0:
+        raise Inconclusive("mjsrun failed rc=%d: %s" % (r.returncode, r.stderr[-2000:]))
+    out = {}
+    for l in open(op):
+        v = json.loads(l)
+        out[v["id"]] = v
+    return out
+
+
+def bind_agree(want, got):
+    if got.get("panic") or got.get("err"):
+        return False
+    return want["log"] == got["log"] and want["ty"] == got.get("ty") and want["v"] == got.get("v")
